@@ -151,6 +151,7 @@ func (h *harness) when(cond func() bool, then func()) {
 }
 
 func (h *harness) poll() {
+	h.w.TrackRoles([][2]string{{"select@hsms/supervisor.go", "supervisor"}, {"net.Read", "recv"}})
 	sel := h.r.C.State() == hsms.SelectedState
 	if sel && !h.wasSel {
 		h.selEntries++
@@ -507,7 +508,7 @@ func (h *harness) setup() {
 			// 0-2 pipelined (Deselect.req, Select.req) pairs in front of the Deselect.req that leaves the
 			// session deselected — all in one segment, so the receive path handles them back to back
 			var stream []byte
-			for k := w.T.Choose("scn", 3); k > 0; k-- {
+			for k := []int{0, 1, 2, 4, 6}[w.T.Choose("scn", 5)]; k > 0; k-- {
 				stream = append(stream, refhsms.Frame(refhsms.Header{Session: sc.Session, SType: refhsms.STDeselectReq, Sys: r.P.NextSys()}, nil)...)
 				stream = append(stream, refhsms.Frame(refhsms.Header{Session: sc.Session, SType: refhsms.STSelectReq, Sys: r.P.NextSys()}, nil)...)
 				w.Probe("deselect_select_churn_pair")
@@ -548,6 +549,14 @@ func (h *harness) setup() {
 				})
 				w.After(4*time.Millisecond, "peer-deselect", sendDeselect)
 			} else {
+				// up to three long preemptions walked through the supervisor's (or the receive path's) next
+				// atomic steps while the pipelined frames are handled: a commit lands inside the other side's
+				// read-modify-write of the state register
+				for n := w.T.Choose("scn", 4); n > 0; n-- {
+					role := []string{"supervisor", "recv"}[w.T.Choose("scn", 2)]
+					w.HoldNth = append(w.HoldNth, &core.NthHold{Prefix: "atomic", Skip: w.T.Choose("scn", 16), D: 3 * time.Millisecond, Label: role,
+						Filter: func(g *simhook.G) bool { return w.Roles[g.ID] == role }})
+				}
 				sendDeselect()
 			}
 			h.when(func() bool {
